@@ -626,6 +626,32 @@ def worklist_facts(repo):
     return {"worklist": toks}
 
 
+def stops_facts(repo):
+    """F3: which rule handlers can stop the processing of a field's remaining rules by returning a true value, and on
+    what condition: (handler, condition) for every `return <expr>` with a value in a _validate_<rule> method."""
+    mod = parse(repo, 'cerberus/validator.py')
+    cls = find_class(mod, 'BareValidator')
+    out = []
+    for fn in cls.body:
+        if not (isinstance(fn, ast.FunctionDef) and fn.name.startswith('_validate_')):
+            continue
+        parents = {}
+        for node in ast.walk(fn):
+            for ch in ast.iter_child_nodes(node):
+                parents[ch] = node
+        for node in ast.walk(fn):
+            if isinstance(node, ast.Return) and node.value is not None:
+                conds = []
+                cur = node
+                while cur in parents and parents[cur] is not fn:
+                    par = parents[cur]
+                    if isinstance(par, ast.If):
+                        conds.append(("" if cur in par.body else "not ") + "(" + ast.unparse(par.test) + ")")
+                    cur = par
+                out.append((fn.name, "return %s if %s" % (ast.unparse(node.value), " and ".join(reversed(conds)) or "True")))
+    return {"stops": out}
+
+
 def introspect(repo):
     """Tables the metaclass computes: read from the freshly imported package."""
     sys.path.insert(0, repo)
@@ -671,6 +697,7 @@ def to_coq(F):
         "{| td_name := %s; td_incl := %s; td_excl := %s |}" % (cs(t['name']), clist(map(cs, t['incl'])), clist(map(cs, t['excl'])))
         for t in F['types']))
     L.append("  f_queue_excluded := %s;" % clist(map(cs, F['queue_excluded'])))
+    L.append("  f_stops := %s;" % clist("(%s, %s)" % (cs(a), cs(b)) for a, b in F['stops']))
     L.append("  f_normalization_rules := %s;" % clist(map(cs, F['normalization_rules'])))
     L.append("  f_nullable_drops := %s;" % clist(map(cs, F['nullable_drops'])))
     L.append("  f_empty_drops := %s;" % clist(map(cs, F['empty_drops'])))
@@ -702,6 +729,7 @@ def translate(repo):
     F.update(validator_facts(repo))
     F.update(cache_facts(repo))
     F.update(worklist_facts(repo))
+    F.update(stops_facts(repo))
     F.update(write_facts(repo))
     F.update(entry_facts(repo))
     F.update(introspect(repo))
